@@ -276,7 +276,20 @@ func genC06(t *rapid.T, _ *evid.Rec) caseC06 {
 		}
 		text = gen.Mutate(t, sb.String(), "mutMany")
 	default:
-		d := gen.Doc(t, gen.Opts{Controls: true, InvalidUTF8: true, BigDurations: true, NearDay: model.DaysFromCivil(2020, 1, 1), NearSpan: 500})
+		o := gen.Opts{Controls: true, InvalidUTF8: true, BigDurations: true, NearDay: model.DaysFromCivil(2020, 1, 1), NearSpan: 500}
+		if rapid.Bool().Draw(t, "anyDates") {
+			// dates over the whole calendar, biased to its edges (0000, 9999, year ends, leap days)
+			o.NearDay, o.NearSpan = 0, 0
+		}
+		d := gen.Doc(t, o)
+		if rapid.IntRange(0, 5).Draw(t, "calendarEdge") == 0 {
+			// records on the first and last representable days (shifted times then touch days
+			// that do not exist for klog)
+			for i := range d.Records {
+				day := rapid.SampledFrom([]int{model.MinDay, model.MinDay + 1, model.MaxDay - 1, model.MaxDay, model.MaxDay}).Draw(t, "edgeDay")
+				d.Records[i].Date = model.DateOfDays(day, d.Records[i].Date.Slash)
+			}
+		}
 		text, _ = model.Render(d, gen.Layout(t, len(d.Records)))
 		if rapid.IntRange(0, 3).Draw(t, "mutate") != 0 {
 			text = gen.Mutate(t, text, "mut")
